@@ -5,7 +5,9 @@ import (
 	"fmt"
 	"os"
 	"runtime/debug"
+	"strconv"
 	"strings"
+	"time"
 
 	"astverif/layout"
 	"astverif/load"
@@ -57,8 +59,34 @@ func Run(id, tier, only string) (code int) {
 		return 2
 	}
 	c := &Ctx{P: p, R: r, Tier: tier}
-	e.run(c)
-	layout.SpecWidthRule(r)
+	// the analysis is bounded: a change that makes an engine explore without end (a parser that forks per descriptor kind, a
+	// composition that never closes) is reported as an undecided obligation after the budget, never waited for indefinitely
+	budget := 8 * time.Minute
+	if tier == "thorough" {
+		budget = 45 * time.Minute
+	}
+	if v := os.Getenv("VERIF_BUDGET_S"); v != "" {
+		if n, err := strconv.Atoi(v); err == nil && n > 0 {
+			budget = time.Duration(n) * time.Second
+		}
+	}
+	done := make(chan interface{}, 1)
+	go func() {
+		defer func() { done <- recover() }()
+		e.run(c)
+		layout.SpecWidthRule(r)
+	}()
+	select {
+	case x := <-done:
+		if x != nil {
+			panic(x)
+		}
+	case <-time.After(budget):
+		rb := report.New(id, tier, e.level)
+		rb.Explanation = "analysis budget exceeded"
+		rb.Unknown("A0", "analysis-budget", "", fmt.Sprintf("the rules of %s did not finish within %s on this tree (they take under a minute on the reference tree): some construct makes an engine explore without end; nothing is claimed", id, budget))
+		return rb.Finish()
+	}
 	if os.Getenv("VERIF_SELFTEST") != "0" && tier == "thorough" {
 		st := SelfTest(id, false)
 		r.Extra["selftest_variants"] = st
